@@ -34,23 +34,14 @@ class NLRI(object):
     @staticmethod
     def construct_prefix_v4(masklen, prefix_str):
         ip_hex = struct.pack('!I', netaddr.IPNetwork(prefix_str).value)
-        if 16 < masklen <= 24:
-            ip_hex = ip_hex[0:3]
-        elif 8 < masklen <= 16:
-            ip_hex = ip_hex[0:2]
-        elif masklen <= 8:
-            ip_hex = ip_hex[0:1]
-        return ip_hex
+        # the prefix occupies ceil(masklen / 8) octets, none for a default route
+        return ip_hex[0:(masklen + 7) // 8]
 
     @staticmethod
     def construct_prefix_v6(prefix):
         mask = int(prefix.split('/')[1])
-        prefix_hex = binascii.unhexlify(hex(netaddr.IPNetwork(prefix).ip)[2:])
-        offset = mask // 8
-        offset_re = mask % 8
-        if offset == 0:
-            return prefix_hex[0: 1]
-        return prefix_hex[0: offset + offset_re]
+        # the prefix occupies ceil(mask / 8) octets, none for a default route
+        return netaddr.IPNetwork(prefix).ip.packed[0:(mask + 7) // 8]
 
     @classmethod
     def parse_mpls_label_stack(cls, data):
